@@ -5,7 +5,7 @@ CONSTANTS
   PLit = {"]", "-"}
   PLen = 3
   SAlpha = {"a", ".", "-", "]"}
-  SLen = 3
+  SLen = 2
 INVARIANT T_Literal
 INVARIANT T_Quoted
 INVARIANT T_Unclosed
